@@ -67,9 +67,9 @@ func (n *fakeNet) Connect(context.Context, peer.AddrInfo) error { return nil }
 func (n *fakeNet) NewMessageSender(context.Context, peer.ID, *bsnet.MessageSenderOpts) (bsnet.MessageSender, error) {
 	return n.s, nil
 }
-func (n *fakeNet) Latency(peer.ID) time.Duration              { return 0 }
-func (n *fakeNet) Ping(context.Context, peer.ID) ping.Result  { return ping.Result{} }
-func (n *fakeNet) Self() peer.ID                              { return "" }
+func (n *fakeNet) Latency(peer.ID) time.Duration             { return 0 }
+func (n *fakeNet) Ping(context.Context, peer.ID) ping.Result { return ping.Result{} }
+func (n *fakeNet) Self() peer.ID                             { return "" }
 
 // ---------- schedule language ----------
 
@@ -341,9 +341,41 @@ func genProds(e *vh.Env, n, max int) []prod {
 	return out
 }
 
+// sameCid is the biased pattern: want-block c, send, want-have of the same c, a send pass, cancel c
+// (each stage optionally inside a window), mixed into random schedules.
+func sameCid(e *vh.Env, n int) []action {
+	c := e.Rng.Intn(n)
+	blk, hv, cn := prod{kind: "wants", blocks: []int{c}}, prod{kind: "wants", haves: []int{c}}, prod{kind: "cancel", haves: []int{c}}
+	var out []action
+	stage := func(p prod) {
+		if e.Rng.Intn(3) == 0 {
+			out = append(out, action{kind: "send", window: []prod{p}})
+		} else {
+			out = append(out, action{kind: "prod", p: p}, action{kind: "send"})
+		}
+	}
+	if e.Rng.Intn(4) == 0 {
+		stage(hv)
+	}
+	stage(blk)
+	stage(hv)
+	if e.Rng.Intn(3) == 0 {
+		out = append(out, action{kind: "rebroadcast"})
+	}
+	if e.Rng.Intn(3) == 0 {
+		out = append(out, action{kind: "prod", p: genProd(e, n)})
+	}
+	out = append(out, action{kind: "prod", p: cn})
+	return out
+}
+
 func genActs(e *vh.Env, n int) []action {
 	k := 2 + e.Rng.Intn(9)
 	var out []action
+	if e.Rng.Intn(4) == 0 {
+		out = append(out, sameCid(e, n)...)
+		k = e.Rng.Intn(4)
+	}
 	for i := 0; i < k; i++ {
 		switch x := e.Rng.Intn(10); {
 		case x < 6:
@@ -406,6 +438,15 @@ func TestC35(t *testing.T) {
 		{"upgrade have to block", true, 2, 1 << 21, []action{P(W(nil, []int{0})), send, P(W([]int{0}, nil)), send}},
 		{"one entry per message", true, 4, 1, []action{P(W([]int{0, 1}, []int{2})), P(B(3)), send, P(C(1, 2)), send}},
 		{"no HAVE support", false, 3, 1 << 21, []action{P(W([]int{0}, []int{1})), P(B(2)), send, P(C(0, 1, 2)), send}},
+		// peers without HAVE support: want-block and want-have of the SAME cid
+		{"no HAVE: want-block sent, want-have of the same cid purged at the next snapshot, then cancel", false, 2, 1 << 21,
+			[]action{P(W([]int{0}, nil)), send, P(W(nil, []int{0})), send, P(C(0)), send}},
+		{"no HAVE: as above with the want-have arriving inside the window and one more send pass", false, 2, 1 << 21,
+			[]action{P(W([]int{0}, nil)), {kind: "send", window: []prod{W(nil, []int{0})}}, send, P(C(0))}},
+		{"no HAVE: want-block sent, want-have + broadcast of the same cid, rebroadcast, cancel", false, 3, 1,
+			[]action{P(W([]int{0, 1}, nil)), send, send, P(W(nil, []int{0, 1})), P(B(0)), send, {kind: "rebroadcast"}, P(C(0, 1)), send}},
+		{"no HAVE: want-have first (never sent), then want-block of the same cid, cancel", false, 2, 1 << 21,
+			[]action{P(W(nil, []int{0})), send, P(W([]int{0}, nil)), send, P(W(nil, []int{0})), send, P(C(0))}},
 		{"rebroadcast", true, 3, 1 << 21, []action{P(W([]int{0}, []int{1})), P(B(1, 2)), send, {kind: "rebroadcast"}, P(C(1))}},
 	}
 	emit := func(sh bool, n, max int, acts []action, name string) {
@@ -447,7 +488,7 @@ func TestC35(t *testing.T) {
 		if e.Rng.Intn(10) == 0 {
 			n = 10
 		}
-		emit(e.Rng.Intn(4) != 0, n, limits[e.Rng.Intn(len(limits))], genActs(e, n), "")
+		emit(e.Rng.Intn(3) != 0, n, limits[e.Rng.Intn(len(limits))], genActs(e, n), "")
 	}
 	cs.Close()
 	st.Write(e)
